@@ -308,6 +308,18 @@ class ExprMixin:
     # ------------------------------------------------------------------ primitive semantics
     def p_binop(self, st, op, a, b):
         a, b = self.need_term(a, 'in arithmetic'), self.need_term(b, 'in arithmetic')
+        for hook in getattr(self.reg, 'binop_hooks', ()):
+            h = hook(self, st, op, a, b)
+            if h is not None:
+                cond, fn = h
+                rest = st.add(z3.Not(cond))
+                outs = self.cases(st, [(cond, fn)])
+                if feasible(rest):
+                    outs = outs + self._p_binop(rest, op, a, b)
+                return outs
+        return self._p_binop(st, op, a, b)
+
+    def _p_binop(self, st, op, a, b):
         both_int = z3.And(T.is_intlike(a), T.is_intlike(b))
         both_num = z3.And(T.is_num(a), T.is_num(b))
         some_float = z3.And(both_num, z3.Not(both_int))
@@ -725,6 +737,14 @@ class ExprMixin:
             return [(st, self.static_attr(o, attr))]
         if isinstance(o, PyVal):
             raise NotFormed(f'attribute {attr} of {o!r}')
+        # nested classes of the runtime class (self.EmptyCell, self.ExcelInPythonException)
+        for cname, info in self.reg.classes.items():
+            if attr in info.get('nested', {}):
+                nd = info['nested'][attr]
+                bases = [b.id for b in getattr(nd, 'bases', []) if isinstance(b, ast.Name)]
+                if 'Exception' in bases:
+                    return [(st, Static('exc:' + attr))]
+                return [(st, Static('class:' + attr))]
         # properties / methods of repository classes, resolved by name
         owner = self.find_member(attr)
         if owner is not None:
@@ -755,10 +775,21 @@ class ExprMixin:
         return [(st, BoundBuiltin(o, attr))]
 
     def date_attr(self, st, o, attr):
-        y, m, d = fresh('y', T.I), fresh('m', T.I), fresh('d', T.I)
-        ordv = z3.If(is_('DateTime', o), V.tord(o), V.dord(o))
-        st = st.add(T.valid_ymd(y, m, d), T.ymd_to_ord(y, m, d) == ordv)
+        ordv = z3.simplify(z3.If(is_('DateTime', o), V.tord(o), V.dord(o)))
+        st, y, m, d = self.ymd_of(st, ordv)
         return [(st, V.Int({'year': y, 'month': m, 'day': d}[attr]))]
+
+    def ymd_of(self, st, ordv):
+        """(year, month, day) of an ordinal: one triple of constants per ordinal term and path (so that .year, .month
+        and .day of the same value are known to belong together)."""
+        hit = st.ymd.get(ordv.get_id())
+        if hit is not None:
+            return st, hit[1], hit[2], hit[3]
+        y, m, d = fresh('y', T.I), fresh('m', T.I), fresh('d', T.I)
+        st = st.add(T.valid_ymd(y, m, d), T.ymd_to_ord(y, m, d) == ordv)
+        st.ymd = dict(st.ymd)
+        st.ymd[ordv.get_id()] = (ordv, y, m, d)
+        return st, y, m, d
 
     def find_member(self, attr):
         found = []
